@@ -230,21 +230,21 @@ __CPROVER_decreases(self->IndexSize - i)
 //@end
 
 /* lemma L1 of stubs/sitemap.h (SUM_z sq_z[0] == suf[0]), proved by induction */
-//@harness h_lemma_sitemap_sqsum enforce=SiteMap_lemma_sqsum props=C18 min_obl=372 timeout=300 reach=1 objbits=8
+//@harness h_lemma_sitemap_sqsum enforce=SiteMap_lemma_sqsum props=C18 min_obl=388 timeout=300 reach=1 objbits=8
 void h_lemma_sitemap_sqsum(void)
 {
   SiteMap *m;
   SiteMap_lemma_sqsum(m);
   REACH("exit");
 }
-//@harness h_IC_prepare_sites enforce=IndexClassification_prepare props=C18,C17 min_obl=12260 timeout=900 reach=3 defs=-DSM_NO_SQ objbits=8
+//@harness h_IC_prepare_sites enforce=IndexClassification_prepare props=C18,C17 min_obl=12135 timeout=900 reach=3 defs=-DSM_NO_SQ objbits=8
 void h_IC_prepare_sites(void)
 {
   struct IndexClassification *p;
   IndexClassification_prepare(p, 0);     /* default ordering: site-major */
   REACH("exit");
 }
-//@harness h_IC_prepare_spins enforce=IndexClassification_prepare props=C18,C17 min_obl=13060 timeout=900 reach=3 objbits=8
+//@harness h_IC_prepare_spins enforce=IndexClassification_prepare props=C18,C17 min_obl=12929 timeout=900 reach=3 objbits=8
 void h_IC_prepare_spins(void)
 {
   struct IndexClassification *p;
@@ -338,17 +338,17 @@ __CPROVER_ensures(!VERIF_thrown && INFO_IS(__CPROVER_return_value, l, o, s))  /*
   return IndexClassification_getInfo(self, idx);
 }
 
-//@harness h_IC_checkIndex enforce=IndexClassification_checkIndex props=C18 min_obl=34 reach=1 objbits=8 timeout=60
+//@harness h_IC_checkIndex enforce=IndexClassification_checkIndex props=C18 min_obl=33 reach=1 objbits=8 timeout=60
 void h_IC_checkIndex(void) { struct IndexClassification *p; unsigned int i; IndexClassification_checkIndex(p, i); REACH("exit"); }
-//@harness h_IC_getInfo enforce=IndexClassification_getInfo props=C18,C17 min_obl=290 reach=1 objbits=8 timeout=60
+//@harness h_IC_getInfo enforce=IndexClassification_getInfo props=C18,C17 min_obl=287 reach=1 objbits=8 timeout=60
 void h_IC_getInfo(void) { struct IndexClassification *p; unsigned int i; IndexClassification_getInfo(p, i); REACH("exit"); }
-//@harness h_IC_getIndex1 enforce=IndexClassification_getIndex1 props=C18 min_obl=393 reach=1 objbits=8 timeout=60
+//@harness h_IC_getIndex1 enforce=IndexClassification_getIndex1 props=C18 min_obl=388 reach=1 objbits=8 timeout=60
 void h_IC_getIndex1(void) { struct IndexClassification *p; struct IndexInfo *k; IndexClassification_getIndex1(p, k); REACH("exit"); }
-//@harness h_IC_getIndex3 enforce=IndexClassification_getIndex3 props=C18 min_obl=391 reach=1 objbits=8 timeout=60
+//@harness h_IC_getIndex3 enforce=IndexClassification_getIndex3 props=C18 min_obl=387 reach=1 objbits=8 timeout=60
 void h_IC_getIndex3(void) { struct IndexClassification *p; label_t l; unsigned short o, s; IndexClassification_getIndex3(p, l, o, s); REACH("exit"); }
-//@harness h_IC_roundtrip_index enforce=IC_roundtrip_index props=C18 min_obl=369 reach=1 objbits=8 timeout=60
+//@harness h_IC_roundtrip_index enforce=IC_roundtrip_index props=C18 min_obl=365 reach=1 objbits=8 timeout=60
 void h_IC_roundtrip_index(void) { struct IndexClassification *p; unsigned int i; IC_roundtrip_index(p, i); REACH("exit"); }
-//@harness h_IC_roundtrip_info enforce=IC_roundtrip_info props=C18 min_obl=411 reach=1 objbits=8 timeout=60
+//@harness h_IC_roundtrip_info enforce=IC_roundtrip_info props=C18 min_obl=407 reach=1 objbits=8 timeout=60
 void h_IC_roundtrip_info(void) { struct IndexClassification *p; label_t l; unsigned short o, s; IC_roundtrip_info(p, l, o, s); REACH("exit"); }
 
 /* MUTATION RECORD (tools/try_mutant.py, src/pomerol/IndexClassification.cpp):
